@@ -22,20 +22,26 @@ missed = []
 try:
     for n in names:
         d = os.path.join(ROOT, "seeded", n)
-        pid = json.load(open(os.path.join(d, "meta.json")))["property"]
+        meta = json.load(open(os.path.join(d, "meta.json")))
+        pid = meta["property"]
+        det = next((v["detected_by"] for k, v in meta.items() if k.startswith("after_repair_")), meta["confirmed"]["detected_by"])
+        others = sorted({x.split("/")[0] for x in det} - {pid})  # changes that another property's check reports
         sh("git reset -q --hard && git clean -fdq", WT)
         rc, out = sh("git apply %s" % os.path.join(d, "patch.diff"), WT)
         if rc != 0:
             print("%-7s patch does not apply: %s" % (n, out.strip()[:200])); missed.append(n); continue
         res = "MISSED"
-        for tier in ("quick", "thorough"):
-            rc, out = sh("./check %s --tier %s" % (pid, tier))
-            if rc == 1:
-                res = tier; break
-            if rc != 0:
-                res = "INFRA(%d)" % rc; break
+        for cid in [pid] + others:
+            for tier in ("quick", "thorough"):
+                rc, out = sh("./check %s --tier %s" % (cid, tier))
+                if rc == 1:
+                    res = tier if cid == pid else "%s(by %s)" % (tier, cid); break
+                if rc != 0:
+                    res = "INFRA(%d)" % rc; break
+            if res != "MISSED":
+                break
         print("%-7s %s %s" % (n, pid, res), flush=True)
-        if res not in ("quick", "thorough"):
+        if not (res.startswith("quick") or res.startswith("thorough")):
             missed.append(n)
 finally:
     sh("git -C /repo worktree remove --force %s" % WT)
